@@ -340,6 +340,9 @@ func Classes(in Input, obs []StepObs) []string {
 		if in.Steps[i].Env.Fault != "" {
 			cl = append(cl, "fault="+in.Steps[i].Env.Fault)
 		}
+		if o.CLI != nil {
+			cl = append(cl, "process-level")
+		}
 	}
 	return cl
 }
